@@ -47,6 +47,7 @@ class Session(object):
 
     def __init__(self, al, keep, Q, enc="lin", zero="sym", variant=0):
         self.al, self.Q, self.enc, self.variant = al, Q, enc, variant
+        self.variant0 = variant
         self.keep = keep
         self.nev = 0                 # events accepted so far (global index of the last one)
         self.att = 0                 # add() attempts; items are named by attempt, gi_of: attempt -> index
@@ -176,7 +177,7 @@ class Session(object):
         return {"kind": "mix", "keep": bool(self.keep), "events": self.events}
 
     def describe(self):
-        return {"Q": self.Q, "keep": bool(self.keep), "encoding": self.enc, "zero": self.zero_name,
+        return {"Q": self.Q, "keep": bool(self.keep), "encoding": self.enc, "zero": self.zero_name, "variant": self.variant0,
                 "inputs": self.inputs, "observed": self.events}
 
 
@@ -197,9 +198,9 @@ def judge(ctx, Q, traces, what):
     cfg = os.path.join(d, "trace.cfg")
     tracecheck.write_cfg(cfg, trace_constants(Q), "TInit", "TNext", TRACE_INVS)
     r = tlc.run("MixerTrace", cfg, env={"TRACE_FILE": tf}, coverage=False, timeout=3000)
-    if r.rc != 0 or r.violated:
-        raise tlc.MachineryError("%s: TLC failed rc=%s violated=%s\n%s" %
-                                 (what, r.rc, r.violated, "\n".join(
+    if not r.ok:
+        raise tlc.MachineryError("%s: TLC failed rc=%s violated=%s errors=%s\n%s" %
+                                 (what, r.rc, r.violated, r.errors[:2], "\n".join(
                                      [ln for ln in r.out.splitlines() if "|->" not in ln][-40:])))
     ctx.add_tlc(r, what)
     acc, rej, diag = set(), {}, {}
@@ -484,7 +485,7 @@ def record_mix(ctx, al, Q, style):
 
 
 def run_m3(ctx, al):
-    plan = [(4, 36, 6, 10), (10, 12, 4, 0)] if not ctx.thorough else \
+    plan = [(4, 60, 8, 10), (10, 20, 6, 0), (3, 10, 3, 0)] if not ctx.thorough else \
            [(4, 500, 40, 60), (10, 150, 20, 0), (3, 100, 20, 0), (16, 100, 10, 0)]
     for Q, ngen, ndrift, nctl in plan:
         sessions = [record_mix(ctx, al, Q, "gen") for _ in range(ngen)]
@@ -545,7 +546,7 @@ def check(ctx):
     # M1 + M2: state graphs
     pending = []
     total = 0
-    graphs = [("Mixer_quick.cfg", 4)] if not ctx.thorough else \
+    graphs = [("Mixer_quick.cfg", 4), ("Mixer_quick3.cfg", 4)] if not ctx.thorough else \
              [("Mixer_thorough.cfg", 5), ("Mixer_thorough3.cfg", 4)]
     for cfg, drain in graphs:
         total += replay_graph(ctx, al, cfg, 4, drain, pending)
@@ -563,7 +564,7 @@ def replay(ctx, rep):
     if "inputs" not in det:
         print(det)
         return 0
-    ses = Session(al, det["keep"], det["Q"], det["encoding"], det["zero"])
+    ses = Session(al, det["keep"], det["Q"], det["encoding"], det["zero"], det.get("variant", 0))
     for inp in det["inputs"]:
         if inp[0] == "add":
             ses.add(inp[1], inp[2])
